@@ -347,6 +347,9 @@ class Session:
         self.compression_method = record.binary[index + 2]
 
         extensions_length = int.from_bytes(record.binary[index + 3: index + 5], 'big')
+        # a ServerHello without extensions ends after the compression method; the record may carry further messages
+        if index + 3 >= 4 + int.from_bytes(record.binary[1:4], 'big'):
+            extensions_length = 0
         extensions_bin = record.binary[index + 5: index + 5 + extensions_length]
 
         self.extensions = {}
